@@ -1066,6 +1066,7 @@ impl Prop for C15Supplied {
             prop_oneof![
                 3 => gen::placement(20).prop_map(|r| gen::build(&r).fen()),
                 4 => gen::castle_theme().prop_map(|r| gen::build(&r).fen()),
+                3 => gen::tactical_crowd(),
                 2 => gen::cage_theme().prop_map(|r| gen::build(&r).fen()),
                 2 => gen::endgame(4).prop_map(|r| gen::build(&r).fen()),
                 1 => gen::promo_theme().prop_map(|r| gen::build(&r).fen()),
